@@ -113,16 +113,63 @@ inline int inside_path(const Path64& P, const Path64& Q, bool* inconsistent = nu
   return first;
 }
 
+
+// ------------------------------------------------------------------ classifiers for G1 / G3 (exact)
+// Does edge #ei of path #pi overlap another solution edge collinearly over a positive length (either direction)?
+inline bool edge_overlaps_another(const Paths64& sol, size_t pi, size_t ei) {
+  const Path64& p = sol[pi]; const Point64& a = p[ei]; const Point64& b = p[(ei + 1) % p.size()];
+  bool use_x = a.x != b.x;
+  int64_t lo = use_x ? std::min(a.x, b.x) : std::min(a.y, b.y), hi = use_x ? std::max(a.x, b.x) : std::max(a.y, b.y);
+  for (size_t qi = 0; qi < sol.size(); ++qi) {
+    const Path64& q = sol[qi]; size_t m = q.size(); if (m < 2) continue;
+    for (size_t j = 0; j < m; ++j) {
+      if (qi == pi && j == ei) continue;
+      const Point64& c = q[j]; const Point64& d = q[(j + 1) % m];
+      if (cross(a, b, c) != 0 || cross(a, b, d) != 0) continue;
+      int64_t lo2 = use_x ? std::min(c.x, d.x) : std::min(c.y, d.y), hi2 = use_x ? std::max(c.x, d.x) : std::max(c.y, d.y);
+      if (std::max(lo, lo2) < std::min(hi, hi2)) return true;
+    }
+  }
+  return false;
+}
+// Signs of the winding numbers the path takes on its own: sample points are the centres of the grid spanned by the
+// path's vertex coordinates (computed in doubled coordinates, exact); points on the path are skipped.
+// returns bit 1: some point with winding > 0, bit 2: some point with winding < 0.
+inline int winding_signs(const Path64& p) {
+  std::vector<int64_t> xs, ys; Path64 p2; p2.reserve(p.size());
+  for (auto& v : p) { xs.push_back(v.x); ys.push_back(v.y); p2.emplace_back(v.x * 2, v.y * 2); }
+  std::sort(xs.begin(), xs.end()); xs.erase(std::unique(xs.begin(), xs.end()), xs.end());
+  std::sort(ys.begin(), ys.end()); ys.erase(std::unique(ys.begin(), ys.end()), ys.end());
+  int signs = 0;
+  for (size_t i = 0; i + 1 < xs.size() && signs != 3; ++i)
+    for (size_t j = 0; j + 1 < ys.size() && signs != 3; ++j) {
+      Point64 q(xs[i] + xs[i + 1], ys[j] + ys[j + 1]);
+      bool on = false; int w = winding1(p2, q, &on);
+      if (on) continue;
+      if (w > 0) signs |= 1; else if (w < 0) signs |= 2;
+    }
+  return signs;
+}
+inline bool is_axis_parallel(const Paths64& pp) {
+  for (auto& p : pp) { size_t n = p.size(); for (size_t i = 0; i < n; ++i) { const Point64& a = p[i]; const Point64& b = p[(i + 1) % n]; if (a.x != b.x && a.y != b.y) return false; } }
+  return true;
+}
+
 // ------------------------------------------------------------------ G1 .. G6
 inline bool check_geometric(const Paths64& sol, const Paths64& inputs, bool pc, bool rev, ld tol, Finding& f, Tally& t) {
   const size_t np = sol.size();
+  const bool rect_in = is_axis_parallel(inputs);
   // G1 zero area, G2 spike, G5 collinear (PC off)
   for (size_t pi = 0; pi < np; ++pi) {
     const Path64& p = sol[pi]; size_t n = p.size();
     if (n < 3) continue;                       // S1's business
     i128 a2 = area2(p);
     if (a2 == 0) {
-      f.set(kG1, { "size_" + std::to_string(n) }, "solution path #" + std::to_string(pi) + " (" + std::to_string(n) + " vertices, first " + pstr(p[0]) + ") has exact area 0");
+      // classifier: the path is a concatenation of loops of both orientations (their areas cancel), or it is flat
+      int sg = winding_signs(p);
+      std::string kind = sg == 3 ? "opposite_loops_cancel" : (sg == 0 ? "flat_no_interior" : "one_sided");
+      f.set(kG1, { kind, std::string(rect_in ? "axis_parallel_input+" : "gp_input+") + kind, "size_" + std::to_string(n) },
+            "solution path #" + std::to_string(pi) + " (" + std::to_string(n) + " vertices, first " + pstr(p[0]) + ") has exact area 0 (" + kind + ")");
       return false;
     }
     for (size_t i = 0; i < n; ++i) {
@@ -162,7 +209,9 @@ inline bool check_geometric(const Paths64& sol, const Paths64& inputs, bool pc, 
         if (!proper_cross(e.a, e.b, g.a, g.b)) continue;
         std::string kind = e.path != g.path ? "different_paths"
                          : ((g.idx - e.idx == 2 || e.idx + e.n - g.idx == 2) ? "same_path_next_but_one" : "same_path_far");
-        f.set(kG3, { kind }, "solution edges " + pstr(e.a) + "-" + pstr(e.b) + " (path #" + std::to_string(e.path) + " edge " + std::to_string(e.idx) +
+        bool ov = edge_overlaps_another(sol, e.path, e.idx) || edge_overlaps_another(sol, g.path, g.idx);
+        std::string okind = ov ? "crossing_edge_overlaps_another_solution_edge" : "crossing_edges_overlap_no_other_edge";
+        f.set(kG3, { okind, std::string(rect_in ? "axis_parallel_input+" : "gp_input+") + okind, kind }, "solution edges " + pstr(e.a) + "-" + pstr(e.b) + " (path #" + std::to_string(e.path) + " edge " + std::to_string(e.idx) +
               ") and " + pstr(g.a) + "-" + pstr(g.b) + " (path #" + std::to_string(g.path) + " edge " + std::to_string(g.idx) + ") properly cross");
         return false;
       }
